@@ -178,6 +178,7 @@ func init() {
 		ID: "C01",
 		Rule: "CNF formulas from seeded generators (messy tiny/small formulas with empty, unit, duplicate-literal, tautological and repeated clauses and unused declared variables; uniform 2/3-SAT near threshold with 5..70 variables; pigeonhole; parity chains; implication chains of 4..40 steps written against the direction of propagation; a 3-SAT part plus four clauses of more than a thousand literals), each through one front-end (ParseSlice / ParseSliceNb / ParseCNF with free DIMACS layout) and one configuration (certificate on/off x learned-clause limit default/4/16). A case is non-trivial when parsing left the status undetermined so that the CDCL search ran; distinct = distinct (formula, front-end, configuration).",
 		Gens:    cnfGens(),
+		Slices:  []SliceRef{{"XQUEUE", 600, 20000}, {"XWATCH", 500, 20000}},
 		Run:     func(o *Oracle, d json.RawMessage, oc *Outcome) { runCnfCase(o, d, oc, "C01") },
 		Cases:   defCases(2500, 40000),
 		Timeout: defDur(20*time.Second, 60*time.Second),
@@ -217,6 +218,7 @@ type solveRun struct {
 	nbVars  int
 	stats   solver.Stats
 	err     error
+	slice   Outcome // comparisons made on the live solver by model slices (queue invariant)
 }
 
 func buildCnfProblem(c *CnfCase) (*solver.Problem, error) {
@@ -251,6 +253,9 @@ func solveCnf(c *CnfCase, certified bool, nbMax int) solveRun {
 	nAn := 0
 	s.VerifSetAnalyzeHook(func(a solver.VerifAnalysis) {
 		nAn++
+		if nAn <= 8 || nAn%50 == 0 { // the executable invariant of GS.Queue.chooseLit_complete on the live heap
+			tieQueueInvariant(&res.slice, s, "at conflict analysis")
+		}
 		if nAn <= 12 || nAn%25 == 0 { // the first analyses and a thin sample of the later ones
 			if len(res.analyses) < 60 {
 				res.analyses = append(res.analyses, a)
@@ -279,6 +284,7 @@ func solveCnf(c *CnfCase, certified bool, nbMax int) solveRun {
 		<-done
 	}
 	res.stats = s.Stats
+	tieQueueInvariant(&res.slice, s, "after Solve")
 	if res.status == solver.Sat {
 		res.model = s.Model()
 	}
@@ -316,6 +322,11 @@ func runCnfCase(o *Oracle, d json.RawMessage, oc *Outcome, prop string) {
 	}
 	n := c.NbVars
 	lins := cnfLins(c.Clauses)
+	oc.Failures = append(oc.Failures, run.slice.Failures...)
+	oc.Corr += run.slice.Corr
+	if run.slice.Corr > 1 {
+		oc.Tag("queue-invariant-checked-in-search")
+	}
 	if run.parseSt == solver.Indet {
 		oc.Nontrivial = true
 		oc.Tag("search")
